@@ -1,7 +1,7 @@
 (* C28  Supercell occupancy bookkeeping stays consistent over any edit history.
    Statements only; every proof is `exact <lemma>` of Proofs/Supercell_proofs.v.
    N = number of sites, Nchem = number of declared species (vacancy = -1, species 0..Nchem-1), both
-   arbitrary; g = the guard of setocc, any function that rejects exactly the undeclared species
+   arbitrary (Nchem >= 1: a crystal has a species); g = the guard of setocc, any function that rejects exactly the undeclared species
    (guard_ok); histories = arbitrary lists of operations whose arguments lie in op_dom (no negative
    Python subscripts as site indices, one mapping list per species, site maps that are permutations;
    species, mapping contents and out-of-range sites are arbitrary). *)
@@ -13,7 +13,7 @@ Local Open Scope Z_scope.
 (* After ANY history from the empty supercell, both objects (the edited one and the original of
    the last copy) and the last POSCAR written are consistent. *)
 Theorem C28_history :
-  forall g N Nchem, guard_ok g Nchem -> forall ops m,
+  forall g N Nchem, (0 < Nchem)%nat -> guard_ok g Nchem -> forall ops m,
     MInv N Nchem m -> Forall (op_dom N Nchem) ops -> MInv N Nchem (run g m ops).
 Proof. exact history_inv. Qed.
 
@@ -22,14 +22,15 @@ Proof. exact init_minv. Qed.
 
 (* One step, any operation, any outcome (exceptions included). *)
 Theorem C28_step :
-  forall g N Nchem m o, guard_ok g Nchem -> MInv N Nchem m -> op_dom N Nchem o -> MInv N Nchem (fst (step g m o)).
+  forall g N Nchem m o, (0 < Nchem)%nat -> guard_ok g Nchem -> MInv N Nchem m -> op_dom N Nchem o ->
+    MInv N Nchem (fst (step g m o)).
 Proof. exact step_inv. Qed.
 
 (* At every point of every history every declared species (vacancy .. last solute) can be placed on
    every site, with exactly that site changed; every other species is rejected and nothing changes. *)
 Theorem C28_species :
   forall g N Nchem ops i c,
-    guard_ok g Nchem -> Forall (op_dom N Nchem) ops -> 0 <= i < Z.of_nat N ->
+    (0 < Nchem)%nat -> guard_ok g Nchem -> Forall (op_dom N Nchem) ops -> 0 <= i < Z.of_nat N ->
     let s := cur (run g (init N Nchem) ops) in
     (declared Nchem c -> exists s', setocc g s i c = (s', OK) /\ Inv N Nchem s' /\
                                     nth_error (occ s') (Z.to_nat i) = Some c /\
@@ -52,7 +53,7 @@ Proof. exact imul_spec. Qed.
 (* Writing a POSCAR and reading it back -- into any consistent supercell of the same shape --
    reproduces occupation and ordering exactly (content level). *)
 Theorem C28_poscar_roundtrip :
-  forall g N Nchem s s0, guard_ok g Nchem -> Inv N Nchem s -> Inv N Nchem s0 ->
+  forall g N Nchem s s0, (0 < Nchem)%nat -> guard_ok g Nchem -> Inv N Nchem s -> Inv N Nchem s0 ->
     exists content, poscar_write s = Some content /\ poscar_read g content s0 = (s, OK).
 Proof. exact poscar_roundtrip. Qed.
 
